@@ -255,7 +255,8 @@ def _is_record_base_of_attr(expr: ast.AST, name_node: ast.Name, du, n) -> bool:
     return False
 
 
-RECORD_FIELDS = None   # set by core: (function, cfg node, call ast) -> ordered field names of the NamedTuple/dataclass constructed, or None
+RECORD_FIELDS = None
+RECORD_FIELD_NAMES: set = set()   # names of the fields of all record classes of the program (set by core)   # set by core: (function, cfg node, call ast) -> ordered field names of the NamedTuple/dataclass constructed, or None
 
 
 def _record_arg(du, o, field):
@@ -370,6 +371,12 @@ def origins(du: DefUse, n: Node, e: ast.AST, path=(), _seen=None, depth: int = 0
             out.extend(origins(du, o.node, arg, path, _seen, depth + 1))
         if out:
             return out
+    if isinstance(e, ast.Attribute) and isinstance(e.value, ast.Name) and RECORD_FIELD_NAMES and e.attr in RECORD_FIELD_NAMES:
+        # field of a record that was produced elsewhere (element of `for change in store.iter_changes(...)`, result of
+        # a call): the same origin, one component deeper
+        base = origins(du, n, e.value, (), set(), depth + 1)
+        if base and all(o.kind == "elem" or (o.kind == "expr" and isinstance(o.leaf, ast.Call)) for o in base):
+            return [Origin(o.kind, o.leaf, tuple(o.path) + (e.attr,) + path, o.node, o.name) for o in base]
     if isinstance(e, ast.Call) and path and isinstance(path[0], int) and RECORD_FIELDS is not None:
         # tuple-unpacking / indexing of a NamedTuple constructor call
         o = Origin("expr", e, (), n)
